@@ -55,6 +55,7 @@ type PartyEnd struct {
 	Closed   bool
 	Panic    string
 	Frame    string
+	Stack    string
 	Hung     bool
 }
 
@@ -154,7 +155,7 @@ func run(spec *sess.Spec, seed int64, label string, f *Fault, observe func(drv.D
 	end.Delivered = steps
 	for _, id := range net.IDs {
 		p := net.Parties[id]
-		pe := &PartyEnd{Closed: p.Closed, Panic: p.Panic, Frame: p.PanicFrame, Hung: p.Hung != ""}
+		pe := &PartyEnd{Closed: p.Closed, Panic: p.Panic, Frame: p.PanicFrame, Stack: p.PanicStack, Hung: p.Hung != ""}
 		end.Parties[id] = pe
 		if p.H == nil || pe.Hung {
 			pe.Status = "hung"
